@@ -51,16 +51,79 @@ steps_of!(steps_c, crash_shape_c, false);
 steps_of!(steps_sync_b, crash_shape_b, true);
 steps_of!(steps_sync_c, crash_shape_c, true);
 
-// C20: one fault at a symbolic call, symbolic mode (error / short write then error)
-s_harness! { fn c20_fault_a() { fault_shape_a(false) } }
-s_harness! { fn c20_fault_b() { fault_shape_b(false) } }
-s_harness! { fn c20_fault_sync_a() { fault_shape_a(true) } }
+// C20: one fault per run; one harness instance per (call number after open, mode)
+s_harness! { fn c20_a_k00() { fault_shape_a(false, 0, 0) } }
+s_harness! { fn c20_a_k01() { fault_shape_a(false, 1, 0) } }
+s_harness! { fn c20_a_k02() { fault_shape_a(false, 2, 0) } }
+s_harness! { fn c20_a_k03() { fault_shape_a(false, 3, 0) } }
+s_harness! { fn c20_a_k04() { fault_shape_a(false, 4, 0) } }
+s_harness! { fn c20_a_k05() { fault_shape_a(false, 5, 0) } }
+s_harness! { fn c20_a_k06() { fault_shape_a(false, 6, 0) } }
+s_harness! { fn c20_a_k07() { fault_shape_a(false, 7, 0) } }
+s_harness! { fn c20_aw_k00() { fault_shape_a(false, 0, 1) } }
+s_harness! { fn c20_aw_k02() { fault_shape_a(false, 2, 1) } }
+s_harness! { fn c20_aw_k04() { fault_shape_a(false, 4, 1) } }
+s_harness! { fn c20_aw_k06() { fault_shape_a(false, 6, 1) } }
+s_harness! { fn c20_b_k00() { fault_shape_b(false, 0, 0) } }
+s_harness! { fn c20_b_k01() { fault_shape_b(false, 1, 0) } }
+s_harness! { fn c20_b_k02() { fault_shape_b(false, 2, 0) } }
+s_harness! { fn c20_b_k03() { fault_shape_b(false, 3, 0) } }
+s_harness! { fn c20_b_k04() { fault_shape_b(false, 4, 0) } }
+s_harness! { fn c20_b_k05() { fault_shape_b(false, 5, 0) } }
+s_harness! { fn c20_b_k06() { fault_shape_b(false, 6, 0) } }
+s_harness! { fn c20_b_k07() { fault_shape_b(false, 7, 0) } }
+s_harness! { fn c20_b_k08() { fault_shape_b(false, 8, 0) } }
+s_harness! { fn c20_b_k09() { fault_shape_b(false, 9, 0) } }
+s_harness! { fn c20_b_k10() { fault_shape_b(false, 10, 0) } }
+s_harness! { fn c20_b_k11() { fault_shape_b(false, 11, 0) } }
+s_harness! { fn c20_b_k12() { fault_shape_b(false, 12, 0) } }
+s_harness! { fn c20_b_k13() { fault_shape_b(false, 13, 0) } }
+s_harness! { fn c20_b_k14() { fault_shape_b(false, 14, 0) } }
+s_harness! { fn c20_b_k15() { fault_shape_b(false, 15, 0) } }
+s_harness! { fn c20_b_k16() { fault_shape_b(false, 16, 0) } }
+s_harness! { fn c20_b_k17() { fault_shape_b(false, 17, 0) } }
+s_harness! { fn c20_bw_k00() { fault_shape_b(false, 0, 1) } }
+s_harness! { fn c20_bw_k06() { fault_shape_b(false, 6, 1) } }
+s_harness! { fn c20_bw_k07() { fault_shape_b(false, 7, 1) } }
+s_harness! { fn c20_bw_k16() { fault_shape_b(false, 16, 1) } }
+s_harness! { fn c20_ay_k00() { fault_shape_a(true, 0, 0) } }
+s_harness! { fn c20_ay_k01() { fault_shape_a(true, 1, 0) } }
+s_harness! { fn c20_ay_k02() { fault_shape_a(true, 2, 0) } }
+s_harness! { fn c20_ay_k03() { fault_shape_a(true, 3, 0) } }
 
+s_harness! { fn c20_m1_k00() { fault_shape_m1(0, 0) } }
+s_harness! { fn c20_m1_k01() { fault_shape_m1(1, 0) } }
+s_harness! { fn c20_m1_k02() { fault_shape_m1(2, 0) } }
+s_harness! { fn c20_m1_k03() { fault_shape_m1(3, 0) } }
+s_harness! { fn c20_m1w_k00() { fault_shape_m1(0, 1) } }
+s_harness! { fn c20_m1w_k02() { fault_shape_m1(2, 1) } }
+s_harness! { fn c20_m2_k00() { fault_shape_m2(0, 0) } }
+s_harness! { fn c20_m2_k01() { fault_shape_m2(1, 0) } }
+s_harness! { fn c20_m2_k02() { fault_shape_m2(2, 0) } }
+s_harness! { fn c20_m2_k03() { fault_shape_m2(3, 0) } }
+s_harness! { fn c20_m2_k04() { fault_shape_m2(4, 0) } }
+s_harness! { fn c20_m2_k05() { fault_shape_m2(5, 0) } }
+s_harness! { fn c20_m2_k06() { fault_shape_m2(6, 0) } }
+s_harness! { fn c20_m2_k07() { fault_shape_m2(7, 0) } }
+s_harness! { fn c20_m2_k08() { fault_shape_m2(8, 0) } }
+s_harness! { fn c20_m2_k09() { fault_shape_m2(9, 0) } }
+s_harness! { fn c20_m2_k10() { fault_shape_m2(10, 0) } }
+s_harness! { fn c20_m2_k11() { fault_shape_m2(11, 0) } }
+s_harness! { fn c20_m2_k12() { fault_shape_m2(12, 0) } }
+s_harness! { fn c20_m2_k13() { fault_shape_m2(13, 0) } }
+s_harness! { fn c20_m2_k14() { fault_shape_m2(14, 0) } }
+s_harness! { fn c20_m2_k15() { fault_shape_m2(15, 0) } }
+
+s_harness! { fn c20_m0_k00() { fault_shape_m0(0, 0) } }
+s_harness! { fn c20_m0_k01() { fault_shape_m0(1, 0) } }
+s_harness! { fn c20_m0w_k00() { fault_shape_m0(0, 1) } }
 // C12: shapes with merges, then recovery with and without the hint files
 s_harness! { fn c12_shape_2() { shape_2::<CHK_HINT>() } }
 s_harness! { fn c12_shape_4() { shape_4::<CHK_HINT>() } }
 s_harness! { fn c12_shape_5() { shape_5::<CHK_HINT>() } }
 s_harness! { fn c12_shape_6() { shape_6::<CHK_HINT>() } }
+s_harness! { fn c12_direct_2() { shape_2::<CHK_HINT_DIRECT>() } }
+s_harness! { fn c12_direct_4() { shape_4::<CHK_HINT_DIRECT>() } }
 
 s_harness! {
 /// C17 (first clause): after `Handle::close` (what `Drop for Bitcask` does) every operation through
@@ -101,96 +164,107 @@ fn c17_closed() {
 } }
 
 s_harness! {
-/// C18 (decision logic only): the real `Context::can_merge` over two files with SYMBOLIC counters,
-/// symbolic triggers, policy and clock hour equals an independently written reference predicate
-/// (same IEEE-754 division and comparison); `fragmentation()` stays in [0,1] and never divides by 0.
+/// C18 (decision logic only): the real `Context::can_merge` equals an independently written
+/// reference predicate.  SYMBOLIC: policy, window start/end, clock hour, the dead-bytes trigger and
+/// the file's dead bytes.  ENUMERATED in the harness (symbolic f64 division does not finish in 25
+/// min - measured): live/dead key counts in 0..=3 x 0..=3 and the fragmentation trigger in
+/// {0.0, 0.25, 0.5, 0.75, 1.0}; `fragmentation()` stays in [0,1] and never divides by zero.
 fn c18_can_merge() {
-    let mut conf = mk_conf(u64::MAX, 0, false);
     let pol: u8 = kani::any();
     let (start, end): (u32, u32) = (kani::any(), kani::any());
     kani::assume(start < 24 && end < 24);
-    conf.merge.policy = match pol {
-        0 => MergePolicy::Never,
-        1 => MergePolicy::Always,
-        _ => MergePolicy::Window { start, end },
-    };
-    let tf: f64 = kani::any();
-    kani::assume(tf >= 0.0 && tf <= 1.0);
     let td: u64 = kani::any();
-    conf.merge.triggers.fragmentation = tf;
-    conf.merge.triggers.dead_bytes = td;
+    let db: u64 = kani::any();
     let hour: u32 = kani::any();
     kani::assume(hour < 24);
     unsafe { chrono::NOW_HOUR = hour };
-    let stats: DashMap<u64, LogStatistics> = DashMap::default();
-    let n: usize = kani::any();
-    kani::assume(n <= 2);
-    let mut want = false;
-    let mut i = 0;
-    while i < 2 {
-        if i < n {
-            let (l, d, db): (u64, u64, u64) = (kani::any(), kani::any(), kani::any());
-            kani::assume(l <= 1 << 40 && d <= 1 << 40);
-            let st = LogStatistics { live_keys: l, dead_keys: d, dead_bytes: db };
-            let fr = st.fragmentation();
-            assert!(fr >= 0.0 && fr <= 1.0, "[C18] fragmentation outside [0,1]");
-            let r = if d == 0 { 0.0 } else { (d as f64) / ((d as f64) + (l as f64)) };
-            if db > td || r > tf {
-                want = true;
+    const TF: [f64; 5] = [0.0, 0.25, 0.5, 0.75, 1.0];
+    let mut ti = 0;
+    while ti < 5 {
+        let mut l = 0u64;
+        while l < 4 {
+            let mut d = 0u64;
+            while d < 4 {
+                let mut conf = mk_conf(u64::MAX, 0, false);
+                conf.merge.policy = match pol {
+                    0 => MergePolicy::Never,
+                    1 => MergePolicy::Always,
+                    _ => MergePolicy::Window { start, end },
+                };
+                conf.merge.triggers.fragmentation = TF[ti];
+                conf.merge.triggers.dead_bytes = td;
+                let st = LogStatistics { live_keys: l, dead_keys: d, dead_bytes: db };
+                let fr = st.fragmentation();
+                assert!(fr >= 0.0 && fr <= 1.0, "[C18] fragmentation outside [0,1]");
+                let r = if d == 0 { 0.0 } else { (d as f64) / ((d as f64) + (l as f64)) };
+                let want = db > td || r > TF[ti];
+                let stats: DashMap<u64, LogStatistics> = DashMap::default();
+                stats.insert(3, st);
+                let ctx = Context { conf, keydir: DashMap::default(), stats, closed: AtomicCell::new(false) };
+                let got = ctx.can_merge();
+                let expect = match pol {
+                    0 => false,
+                    1 => want,
+                    _ => want && hour >= start && hour <= end,
+                };
+                assert!(got == expect, "[C18] can_merge disagrees with the configured policy / triggers");
+                kani::cover!(got && pol >= 2 && hour == end, "a merge is due in the last hour of the window");
+                std::mem::forget(ctx);
+                d += 1;
             }
-            stats.insert(i as u64, st);
+            l += 1;
         }
-        i += 1;
+        ti += 1;
     }
-    let ctx = Context { conf, keydir: DashMap::default(), stats, closed: AtomicCell::new(false) };
-    let got = ctx.can_merge();
-    let expect = match pol {
-        0 => false,
-        1 => want,
-        _ => want && hour >= start && hour <= end,
-    };
-    assert!(got == expect, "[C18] can_merge disagrees with the configured policy / triggers");
-    kani::cover!(got && pol >= 2, "a merge is due inside the window");
-    kani::cover!(!got && pol == 1 && n == 2, "no trigger exceeded under policy always");
-    std::mem::forget(ctx);
 } }
 
 s_harness! {
 /// C18: the real `fileids_to_merge` selects exactly the files meeting a threshold (dead bytes,
-/// fragmentation, small file), closed towards older files (789eab8), for symbolic counters,
-/// symbolic thresholds and symbolic file lengths.
+/// fragmentation, small file), closed towards older files (789eab8).  SYMBOLIC: dead bytes per
+/// file, file lengths, the dead-bytes and small-file thresholds; concrete key counts per file
+/// ((2,1), (0,3), (3,0): fragmentation 1/3, 1, 0) and the fragmentation threshold enumerated over
+/// {0.0, 0.4, 1.0}.
 fn c18_selection() {
-    let mut conf = mk_conf(u64::MAX, 0, false);
-    let tf: f64 = kani::any();
-    kani::assume(tf >= 0.0 && tf <= 1.0);
     let (td, ts): (u64, u64) = (kani::any(), kani::any());
-    conf.merge.thresholds.fragmentation = tf;
-    conf.merge.thresholds.dead_bytes = td;
-    conf.merge.thresholds.small_file = ts;
-    let stats: DashMap<u64, LogStatistics> = DashMap::default();
-    let mut sel = [false; 3];
+    const TF: [f64; 3] = [0.0, 0.4, 1.0];
+    const KEYS: [(u64, u64); 3] = [(2, 1), (0, 3), (3, 0)];
+    let mut lens = [0usize; 3];
+    let mut dbs = [0u64; 3];
     let mut id = 0;
     while id < 3 {
         mfs::__preexisting(dslot(id));
         let len: usize = kani::any();
         kani::assume(len <= mfs::FCAP);
         mfs::__fs().inodes[dslot(id)].len = len;
-        let (l, d, db): (u64, u64, u64) = (kani::any(), kani::any(), kani::any());
-        kani::assume(l <= 1 << 40 && d <= 1 << 40);
-        let st = LogStatistics { live_keys: l, dead_keys: d, dead_bytes: db };
-        sel[id] = db > td || st.fragmentation() > tf || (len as u64) < ts;
-        stats.insert(id as u64, st);
+        lens[id] = len;
+        dbs[id] = kani::any();
         id += 1;
     }
-    // closure towards older files
-    let want = [sel[0] || sel[1] || sel[2], sel[1] || sel[2], sel[2]];
-    let ctx = Context { conf, keydir: DashMap::default(), stats, closed: AtomicCell::new(false) };
-    let got = must(ctx.fileids_to_merge("d"));
-    let mut id = 0;
-    while id < 3 {
-        assert!(got.contains(&(id as u64)) == want[id], "[C18] fileids_to_merge selects a different set than the thresholds (closed towards older files) prescribe");
-        id += 1;
+    let mut ti = 0;
+    while ti < 3 {
+        let mut conf = mk_conf(u64::MAX, 0, false);
+        conf.merge.thresholds.fragmentation = TF[ti];
+        conf.merge.thresholds.dead_bytes = td;
+        conf.merge.thresholds.small_file = ts;
+        let stats: DashMap<u64, LogStatistics> = DashMap::default();
+        let mut sel = [false; 3];
+        let mut id = 0;
+        while id < 3 {
+            let st = LogStatistics { live_keys: KEYS[id].0, dead_keys: KEYS[id].1, dead_bytes: dbs[id] };
+            sel[id] = dbs[id] > td || st.fragmentation() > TF[ti] || (lens[id] as u64) < ts;
+            stats.insert(id as u64, st);
+            id += 1;
+        }
+        let want = [sel[0] || sel[1] || sel[2], sel[1] || sel[2], sel[2]];
+        let ctx = Context { conf, keydir: DashMap::default(), stats, closed: AtomicCell::new(false) };
+        let got = must(ctx.fileids_to_merge("d"));
+        let mut id = 0;
+        while id < 3 {
+            assert!(got.contains(&(id as u64)) == want[id], "[C18] fileids_to_merge selects a different set than the thresholds (closed towards older files) prescribe");
+            id += 1;
+        }
+        kani::cover!(want[0] && !want[2], "an older file is merged while the newest is not");
+        std::mem::forget((ctx, got));
+        ti += 1;
     }
-    kani::cover!(want[0] && !want[2], "an older file is merged while the newest is not");
-    std::mem::forget((ctx, got));
 } }
